@@ -20,7 +20,8 @@ import lib  # noqa: E402
 def setup():
     t0 = time.time()
     lib.run_translator()
-    ok, out = lib.lake_build()
+    # every property module (and with them every lemma file) is built here, in parallel, so that a check only re-checks what changed
+    ok, out = lib.lake_build(tuple("HtpModel.Props.C%02d" % i for i in range(1, 20)) + ("HtpModel", "htpdrv"))
     if not ok:
         print(out[-6000:])
         return 1
